@@ -155,6 +155,8 @@ def safe_callable_names(root: ast.Module) -> Collection[str]:
         Collection[str]: Names of all functions that have no side effect when called.
     """
     defined_names = {node.id for node in core.walk(root, ast.Name(ctx=ast.Store))}
+    # A parameter is whatever the caller passes, not the function or builtin of the same name
+    defined_names |= {node.arg for node in core.walk(root, ast.arg)}
     function_defs = list(core.walk(root, (ast.FunctionDef, ast.AsyncFunctionDef)))
     # A builtin that the module redefines (def format, class filter, import sorted) is not the builtin anymore
     redefined_names = (
